@@ -12,7 +12,7 @@ hprop.install(globals(), hprop.HistoryProperty(
           "and base charging, fares from generated rate structures; a double-entry ledger built from charge and pickup events is "
           "compared with vehicle/station balances and energy counters after every step (per step and cumulatively, tol 1e-6), and "
           "every charge price with energy x the station's tariff for that plug; the stations' per-step load reports (construct_station_load_events on the step's reports) "
-          "equal what each station's state dispensed in the step. non-trivial = charge sessions at >=2 distinct "
+          "equal what each station's state dispensed in the step; the summary statistics (get_summary_stats mid-run, at the end and once more) equal the totals over stations / vehicles. non-trivial = charge sessions at >=2 distinct "
           "non-zero (station, plug, tariff) AND a session cut short by an instruction; distinct = sha1(world, op log)"),
     assumptions=hprop.COMMON_ASSUMPTIONS + ["tariff tables are complete (name every station and plug), so the C11 price-table defects cannot mask this property"],
     quick=(16, 60, 40), thorough=(16, 600, 60),
